@@ -130,6 +130,7 @@ func checkC01(c *Ctx) {
 
 	checkCallSignature(c, "C01.R12.call-signature", ev)
 	checkFoldedPatterns(c, "C01.R13.folded-names", gen)
+	checkVersionedImports(c, "C01.R14.versioned-imports", gen)
 
 	// ---- R9 code swallowed by a comment
 	c.Rule("C01.R9.commented-code", "no template text holding Go statement tokens (`:=`, `err != nil`, `if err`, `func (`, `); err`) is lexed inside a comment in any instantiation (whitespace trimming that glues code onto a comment line)", 1)
@@ -909,4 +910,71 @@ func checkFoldedPatterns(c *Ctx, rule string, gen *packages.Package) {
 	if n == 0 {
 		c.Unk(rule, "patterns applied before ManglePackageName", "", "no instance found (expected versionedPkgRex in analyzeTags)")
 	}
+}
+
+
+// checkVersionedImports: the go tools assume that the package behind an import path ending in
+// /vN is named after the element before it, unless they can read the package from disk. The
+// generated import block must therefore spell the alias out for such paths: what goimports
+// makes of a bare import would otherwise depend on what a previous run left in the target.
+func checkVersionedImports(c *Ctx, rule string, gen *packages.Package) {
+	c.Rule(rule, "GoLangOpts().ImportsFunc emits the bare form of an import only when the alias is the last path element and that element is not a major-version suffix (vN)", 1)
+	info := gen.TypesInfo
+	fd := load.FuncDecl(gen, "GoLangOpts")
+	if fd == nil {
+		c.Anchor(rule, "generator.GoLangOpts", "not found")
+		return
+	}
+	var lit *ast.FuncLit
+	ast.Inspect(fd.Body, func(n ast.Node) bool {
+		if as, ok := n.(*ast.AssignStmt); ok && len(as.Lhs) == 1 && goan.LastSel(as.Lhs[0]) == "ImportsFunc" {
+			lit, _ = as.Rhs[0].(*ast.FuncLit)
+		}
+		return true
+	})
+	if lit == nil {
+		c.Anchor(rule, "generator.GoLangOpts › ImportsFunc", "not assigned a function literal")
+		return
+	}
+	found, ok := false, false
+	ast.Inspect(lit.Body, func(n ast.Node) bool {
+		ifs, isIf := n.(*ast.IfStmt)
+		if !isIf || ifs.Else == nil {
+			return true
+		}
+		// the else branch emits the bare form: a Sprintf whose format has a single %q verb
+		bare := false
+		ast.Inspect(ifs.Else, func(m ast.Node) bool {
+			if call, isC := m.(*ast.CallExpr); isC && len(call.Args) >= 1 {
+				if f, okS := goan.StringVal(info, call.Args[0]); okS && strings.Count(f, "%") == 1 && strings.Contains(f, "%q") {
+					bare = true
+				}
+			}
+			return true
+		})
+		if !bare {
+			return true
+		}
+		found = true
+		// the aliased branch is taken when a version-like last element is seen
+		ast.Inspect(ifs.Cond, func(m ast.Node) bool {
+			call, isC := m.(*ast.CallExpr)
+			if !isC || len(call.Args) != 1 {
+				return true
+			}
+			se, isS := call.Fun.(*ast.SelectorExpr)
+			if !isS || se.Sel.Name != "MatchString" {
+				return true
+			}
+			if pat, okL := packageRegexpLiteral(gen, se.X); okL {
+				if rx, err := regexp.Compile(pat); err == nil && rx.MatchString("v2") && rx.MatchString("v10") && !rx.MatchString("models") && !rx.MatchString("v") {
+					ok = true
+				}
+			}
+			return true
+		})
+		return true
+	})
+	c.Check(found && ok, rule, "generator.GoLangOpts › ImportsFunc › …/vN imports are aliased", c.posOf(gen, lit.Pos()), "the bare form is not used when the last path element matches the version pattern",
+		"ImportsFunc emits a bare import for a path ending in /vN: goimports resolves its package name from the target directory, so the first generation into an empty target drops the import (code that does not compile) and a second run differs")
 }
